@@ -61,8 +61,11 @@ static int run_replay(const char *path) {
 static int run_random(uint64_t seed, long n) {
   vrt::Rng r(seed);
   for (long i = 0; i < n; ++i) {
-    const int frames = (i % 100 == 99) ? r.range(2000, 10000) : (i % 100 == 49 ? 4096 : r.range(1, 200));
-    const int ntracks = frames == 4096 ? r.range(1, 3) : r.range(0, 8);
+    // i % 300 == 149: 10000 frames x 16 components whose frame-to-frame differences take more than 65536 distinct values, coded at speed 0 (the largest
+    // alphabet class of the raw symbol coder plus the speed-dependent adjustment of its bit length)
+    const bool manyd = i % 300 == 149;
+    const int frames = manyd ? 10000 : (i % 100 == 99) ? r.range(2000, 10000) : (i % 100 == 49 ? 4096 : r.range(1, 200));
+    const int ntracks = (frames == 4096 || manyd) ? r.range(1, 3) : r.range(0, 8);
     const bool ts_first = r.coin();
     KeyframeAnimation anim;
     std::vector<float> ts(frames);
@@ -76,7 +79,7 @@ static int run_random(uint64_t seed, long n) {
       Track tr;
       tr.comps = r.coin(1, 4) ? 16 : r.range(1, 4);
       tr.dt = r.coin(3, 4) ? DT_FLOAT32 : DT_INT32;
-      if (frames == 4096 && t == 0) { tr.comps = 16; tr.dt = DT_INT32; }
+      if ((frames == 4096 || manyd) && t == 0) { tr.comps = 16; tr.dt = DT_INT32; }
       tr.q = (tr.dt == DT_FLOAT32 && r.coin(1, 3)) ? r.range(4, 20) : 0;
       if (tr.dt == DT_FLOAT32) {
         tr.f.resize((size_t)frames * tr.comps);
@@ -86,6 +89,17 @@ static int run_random(uint64_t seed, long n) {
       } else {
         tr.iv.resize((size_t)frames * tr.comps);
         // value classes: moderate, hugging INT32_MAX, hugging INT32_MIN, the whole int32 range, constant
+        if (manyd && t == 0) {
+          std::vector<int32_t> cur(tr.comps, 0);
+          for (int k = 0; k < frames; ++k) for (int c = 0; c < tr.comps; ++c) {
+            const long idx = (long)k * tr.comps + c;
+            cur[c] += (int32_t)((idx * 40503L) % 70001L) - 35000;
+            tr.iv[(size_t)idx] = cur[c];
+          }
+          tr.id = anim.AddKeyframes(DT_INT32, tr.comps, tr.iv);
+          tracks.push_back(tr);
+          continue;
+        }
         const bool forced = frames == 4096 && t == 0;     // the 4096-frame animations always carry one 16-component hold-or-step track with 1025 residual symbols
         const int cls = forced ? 6 : r.range(0, 6);
         const int32_t konst = (int32_t)r.u32();
@@ -123,7 +137,7 @@ static int run_random(uint64_t seed, long n) {
       }
     EncoderOptions eo = EncoderOptions::CreateDefaultOptions();
     // the forced hold-or-step track reaches the 2-byte / 3-byte boundary of the probability table (probability exactly 2^14) at the speeds whose table precision is 15 bits
-    const int speed = frames == 4096 ? 5 + (int)(i / 100) % 2 : r.range(0, 10);
+    const int speed = manyd ? 0 : frames == 4096 ? 5 + (int)(i / 100) % 2 : r.range(0, 10);
     eo.SetSpeed(speed, speed);
     const bool builtin = !r.coin(1, 5);
     if (!builtin) eo.SetGlobalBool("use_built_in_attribute_compression", false);    // values stored with the smallest sufficient byte width instead of entropy coded
@@ -136,7 +150,10 @@ static int run_random(uint64_t seed, long n) {
     if (st.ok()) {
       DecoderBuffer db;
       db.Init(eb.data(), eb.size());
-      KeyframeAnimationDecoder dec;
+      // every second animation is decoded by ONE decoder object that has decoded all earlier ones (other frame counts, other tracks)
+      static KeyframeAnimationDecoder reused_dec;
+      KeyframeAnimationDecoder fresh_dec;
+      KeyframeAnimationDecoder &dec = (i % 2) ? reused_dec : fresh_dec;
       DecoderOptions dopt;
       dok = dec.Decode(dopt, &db, &outa).ok();
     }
@@ -202,8 +219,59 @@ static int run_random(uint64_t seed, long n) {
   return 0;
 }
 
+// very many tiny animations (one int32 track, about 19 frames of small values) in-process: the final state of the entropy coder sweeps its range,
+// including the exact boundaries between the forms in which it is flushed.  Mismatches and every 4000th animation are written out as Anim records.
+static int run_tiny(uint64_t seed, long n) {
+  vrt::Rng r(seed);
+  long bad = 0;
+  for (long i = 0; i < n; ++i) {
+    const int frames = r.range(8, 30), top = r.range(4, 40);
+    std::vector<float> ts(frames);
+    for (int k = 0; k < frames; ++k) ts[k] = (float)k;
+    std::vector<int32_t> iv(frames);
+    for (auto &x : iv) x = r.range(0, top);
+    KeyframeAnimation anim;
+    anim.SetTimestamps(ts);
+    const int id = anim.AddKeyframes(DT_INT32, 1, iv);
+    EncoderOptions eo = EncoderOptions::CreateDefaultOptions();
+    const int speed = r.range(0, 10);
+    eo.SetSpeed(speed, speed);
+    EncoderBuffer eb;
+    KeyframeAnimationEncoder enc;
+    const bool eok = enc.EncodeKeyframeAnimation(anim, eo, &eb).ok();
+    KeyframeAnimation outa;
+    bool dok = false, same = false;
+    if (eok) {
+      DecoderBuffer db; db.Init(eb.data(), eb.size());
+      KeyframeAnimationDecoder dec; DecoderOptions dopt;
+      dok = dec.Decode(dopt, &db, &outa).ok();
+      const PointAttribute *ka = dok ? outa.keyframes(id) : nullptr;
+      same = ka && (int)outa.num_frames() == frames && ka->data_type() == DT_INT32;
+      for (int k = 0; same && k < frames; ++k) { int32_t v = 0; ka->GetValue(ka->mapped_index(PointIndex(k)), &v); same = v == iv[k]; }
+    }
+    if (!(eok && dok && same)) ++bad;
+    if ((!(eok && dok && same) && bad <= 50) || i % 4000 == 0) {
+      std::vector<int> a, b;
+      Dict d;
+      for (int k = 0; k < frames; ++k) a.push_back(d.id(std::string((const char *)&iv[k], 4)));
+      const PointAttribute *ka = dok ? outa.keyframes(id) : nullptr;
+      if (ka) for (PointIndex p(0); p < outa.num_points(); ++p) b.push_back(d.id(raw_key(ka, p)));
+      std::vector<int> tsi; for (int k = 0; k < frames; ++k) tsi.push_back(k);
+      std::vector<int> tso; const PointAttribute *ta = dok ? outa.timestamps() : nullptr; bool tsf = ta != nullptr;
+      if (tsf) { Dict dt; for (int k = 0; k < frames; ++k) dt.id(std::string((const char *)&ts[k], 4)); for (PointIndex p(0); p < outa.num_points(); ++p) tso.push_back(dt.id(raw_key(ta, p))); }
+      out.begin("Anim").i("case", 1000000 + i).i("frames", frames).i("speed", speed).b("builtin", true).b("must_encode", true).b("ts_first", true).b("eok", eok).b("dok", dok)
+          .i("out_frames", dok ? outa.num_frames() : -1).b("ts_found", tsf).arr("ts_in", tsi).arr("ts_out", tso).i("deleted", 0);
+      out.raw("tracks", "[{\"id\":" + std::to_string(id) + ",\"comps\":1,\"dt\":" + std::to_string((int)DT_INT32) + ",\"q\":0,\"found\":" + (ka ? "true" : "false") +
+              ",\"comps_out\":" + std::to_string(ka ? (int)ka->num_components() : -1) + ",\"dt_out\":" + std::to_string(ka ? (int)ka->data_type() : -1) + ",\"inp\":" + jarr(a) + ",\"out\":" + jarr(b) + "}]").end();
+    }
+  }
+  fprintf(stderr, "STATS tiny=%ld bad=%ld\n", n, bad);
+  return 0;
+}
+
 int main(int argc, char **argv) {
   if (argc >= 3 && !strcmp(argv[1], "replay")) return run_replay(argv[2]);
+  if (argc >= 4 && !strcmp(argv[1], "tiny")) return run_tiny(strtoull(argv[2], 0, 10), atol(argv[3]));
   if (argc >= 4 && !strcmp(argv[1], "random")) return run_random(strtoull(argv[2], 0, 10), atol(argv[3]));
   fprintf(stderr, "usage: drv_c20 replay <rows> | random <seed> <n>\n");
   return 2;
